@@ -112,6 +112,13 @@ func rotate(ids []party.ID, k int) []party.ID {
 // session builds the session of a spec.
 func session(s Spec) (*proto.Session, error) {
 	ids := fix.IDs(s.Family, s.N, s.IDPick)
+	if s.Family == "wide" {
+		// more parties than any pool holds (key generation only): thresholds beyond one byte become expressible
+		ids = nil
+		for i := 0; i < s.N; i++ {
+			ids = append(ids, party.ID(fmt.Sprintf("w%04d", i+s.IDPick)))
+		}
+	}
 	sid := sidBytes(s.SID)
 	msg := []byte(s.Msg)
 	if isKeygen(s.Proto) {
@@ -228,9 +235,15 @@ var allProtos = []string{proto.CMPKeygen, proto.CMPRefresh, proto.CMPSign, proto
 	proto.FrostKeygen, proto.FrostKeygenTap, proto.FrostRefresh, proto.FrostRefreshTap, proto.FrostSign, proto.FrostSignTap,
 	proto.DoernerKeygen, proto.DoernerRefresh, proto.DoernerSign}
 
+// sids: session identifiers of any length are admitted by every start function. Besides short ones: one that is another
+// plus a trailing NUL, a lone NUL (versus empty), and long ones that agree on their first 32 / 64 bytes.
+var sids = []string{"nil", "empty", "s", "session", "session2", "session\x00", "\x00",
+	"wallet-7f3a/keygen/2026-09-26/run-0001", "wallet-7f3a/keygen/2026-09-26/run-0002",
+	strings.Repeat("0123456789abcdef", 4) + "A", strings.Repeat("0123456789abcdef", 4) + "B", strings.Repeat("0123456789abcdef", 4), "sessio"}
+
 func genSpec(t *rapid.T, protos []string) Spec {
 	s := Spec{Proto: rapid.SampledFrom(protos).Draw(t, "proto")}
-	s.SID = rapid.SampledFrom([]string{"nil", "empty", "s", "session", "session2"}).Draw(t, "sid")
+	s.SID = rapid.SampledFrom(sids[:len(sids)-1]).Draw(t, "sid")
 	s.Family = rapid.SampledFrom([]string{"letters", "prefix", "concat", "near1", "nonascii", "long", "padding"}).Draw(t, "family")
 	s.IDPick = rapid.IntRange(0, 7).Draw(t, "idpick")
 	s.N = rapid.IntRange(2, 4).Draw(t, "n")
@@ -270,7 +283,7 @@ func vary(t *rapid.T, s Spec, what string) (y Spec, ok bool) {
 	switch what {
 	case "none":
 	case "session-id":
-		y.SID = rapid.SampledFrom([]string{"nil", "empty", "s", "session", "session2", "sessio"}).Filter(func(x string) bool { return x != s.SID }).Draw(t, "sid2")
+		y.SID = rapid.SampledFrom(sids).Filter(func(x string) bool { return x != s.SID }).Draw(t, "sid2")
 	case "protocol":
 		var same []string
 		for _, p := range allProtos {
@@ -360,6 +373,25 @@ func TestTags(t *testing.T) {
 		}
 		tagProp.One(rt, tagCase{X: x, Y: y, Differ: what, Who: rapid.IntRange(0, 3).Draw(rt, "who")})
 	})
+}
+
+// TestTagsWide: key generation sessions of MANY parties whose thresholds differ by a multiple of 256 (and by one, as a
+// control) must have different tags: the threshold is an int everywhere, nothing bounds it by a byte.
+func TestTagsWide(t *testing.T) {
+	rec := ev.Get()
+	i := 0
+	for _, p := range []string{proto.FrostKeygen, proto.FrostKeygenTap, proto.CMPKeygen} {
+		for _, c := range [][3]int{{258, 1, 257}, {258, 0, 256}, {300, 2, 258}, {300, 3, 4}, {600, 5, 517}} {
+			i++
+			if !rec.Mine(i) {
+				continue
+			}
+			x := Spec{Proto: p, SID: "session", Family: "wide", N: c[0], T: c[1], Key: "base", Msg: "m"}
+			y := x
+			y.T = c[2]
+			tagProp.One(t, tagCase{X: x, Y: y, Differ: "threshold", Who: i})
+		}
+	}
 }
 
 // ---- (b) cross-session replay
